@@ -192,8 +192,8 @@ def check_output(path, inst_in, beads_in, samples_in, hist):
             added = list(out.columns[len(cin):])
             want = list(ROWCOLS)
             for c in cin:
-                if c.endswith(pattern):
-                    want += ['%s %s' % (c[:-len(pattern)], x) for x in chcols]
+                if c.split()[-len(pattern.split()):] == pattern.split() and len(c.split()) > len(pattern.split()):
+                    want += ['%s %s' % (' '.join(c.split()[:-len(pattern.split())]), x) for x in chcols]
             if added != want:
                 labels.append(('added-columns/' + sheet, repr(added)[:200]))
             if len(tin) and out['Analysis Notes'].astype(str).str.startswith('ERROR').any():
